@@ -33,7 +33,8 @@ def main():
         try:
             with open(os.path.join(ctl, 'control.json'), 'w') as f:
                 json.dump({'fault': spec.get('fault'), 'delays': spec.get('delays'), 'collectors': spec['collector_ids'],
-                           'collector_priority': spec.get('collector_priority')}, f)
+                           'collector_priority': spec.get('collector_priority'), 'warmup': spec.get('warmup') or 0,
+                           'collector_style': spec.get('collector_style') or 'append'}, f)
             params = {k: (range(*v['__range__']) if isinstance(v, dict) and '__range__' in v else v) for k, v in spec['grid'].items()}
             params['ctl'] = ctl
             params['stop'] = spec['stop']
